@@ -30,7 +30,8 @@ def build_world(eng, nfiles, max_edges, with_always=True, runid=None, fixed=None
     ids = sorted(names(nfiles))
     # the ALWAYS pseudo file (row 1)
     if with_always:
-        w.sym_file(1, ALWAYS, tag='always', fs_choices=(None,), stamp_choices=(None,), csum_choices=(None,),
+        # the ALWAYS row as redo-always leaves it (stamp "missing") or as a fresh database has it (NULL)
+        w.sym_file(1, ALWAYS, tag='always', fs_choices=(None,), stamp_choices=(None, S_MISSING), csum_choices=(None,),
                    fixed={'is_generated': None, 'is_override': None, 'checked_runid': None, 'failed_runid': None})
     for i in ids:
         w.sym_file(i, names(nfiles)[i], fixed=(fixed or {}).get(i), **(row_kw or {}))
@@ -275,13 +276,13 @@ def to_dbline(model, target, op='is_dirty'):
     return ' '.join(parts)
 
 
-def kernel_agreement(chk, nfiles, max_edges, goals=False, name=None, focus=None):
+def kernel_agreement(chk, nfiles, max_edges, goals=False, name=None, focus=None, world_kw=None):
     """real is_dirty == reference, for every symbolic state.  `focus(rv, ov, w, ref)` may add property-specific judgements."""
     eng = chk.eng
     st = {}
 
     def run():
-        w, R, ids = build_world(eng, nfiles, max_edges)
+        w, R, ids = build_world(eng, nfiles, max_edges, **(world_kw or {}))
         st.update(w=w, R=R, ids=ids)
         snap = snapshot(w)
         r, fr, ptxr, psr = call_is_dirty(eng, w, R, ids[0])
@@ -370,6 +371,12 @@ def make_replay(chk, rep, scn=None):
             c['scenario_output'] = out[-2000:]
             from specs import orchestration
             return orchestration.PREDICATES[c['violated']](out), out[-600:].replace('\n', ' | ')
+        if c.get('kind') == 'cycles':
+            payload, raw, rc = rep.run('cycles', 'cycles_batch', [c['witness']['line']])
+            if len(payload) != 1:
+                return False, 'native run failed rc=%s %s' % (rc, raw[-300:])
+            got = payload[0].split(' ')[-1]
+            return got != c['expect_native'], 'compiled cycles::add/check on `%s`: %s (a held id must be CYCLIC, a free one FREE)' % (c['witness']['line'], got)
         if c.get('kind') == 'subredo' and scn is not None:
             import shutil
             import re
